@@ -331,17 +331,41 @@ class Facts:
             raw.append((f, d))
         # Functions that were only *renamed or moved* (same signature, same callees) are given back the name the rules
         # know them by; everything else about them is analysed as it stands. See `renamed_functions`.
-        self.aliases = renamed_functions([d for _, d in raw], config) if aliases else {}
-        if self.aliases:
-            rxs = [(re.compile(re.escape(n) + r"(?![A-Za-z0-9_])"), c) for n, c in sorted(self.aliases.items(), key=lambda kv: -len(kv[0]))]
-            raw2 = []
-            for f, _ in raw:
-                with open(os.path.join(fact_dir, f)) as fh:
-                    text = fh.read()
-                for rx, c in rxs:
-                    text = rx.sub(lambda m, c=c: c, text)
-                raw2.append((f, json.loads(text)))
-            raw = raw2
+        self.aliases = {}
+        self.field_aliases = {}
+        if aliases:
+            texts = None
+
+            def respell(raw, table):
+                nonlocal texts
+                if texts is None:
+                    texts = {}
+                    for f, _ in raw:
+                        with open(os.path.join(fact_dir, f)) as fh:
+                            texts[f] = fh.read()
+                rxs = [(re.compile(r"(?<![A-Za-z0-9_])" + re.escape(n) + r"(?![A-Za-z0-9_])"), c) for n, c in sorted(table.items(), key=lambda kv: -len(kv[0]))]
+                out = []
+                for f, _ in raw:
+                    text = texts[f]
+                    for rx, c in rxs:
+                        text = rx.sub(lambda m, c=c: c, text)
+                    texts[f] = text
+                    out.append((f, json.loads(text)))
+                return out
+
+            # 1. types that were renamed or moved (same fields), 2. functions (same signature and callees), 3. fields
+            ta = renamed_adts([d for _, d in raw], config)
+            if ta:
+                raw = respell(raw, ta)
+                self.aliases.update(ta)
+            fa = renamed_functions([d for _, d in raw], config)
+            if fa:
+                raw = respell(raw, fa)
+                self.aliases.update(fa)
+            self.field_aliases = renamed_fields([d for _, d in raw])
+            if self.field_aliases:
+                for _, d in raw:
+                    _respell_fields(d, self.field_aliases)
         for f, d in raw:
             cname = d["crate"]
             self.files.append(f)
@@ -576,3 +600,130 @@ _TEST_RX = re.compile(r"(::tests?::|::tests?$|::test_|::mock)")
 
 def is_test_body(b):
     return bool(_TEST_RX.search(b.path)) or "/tests/" in b.file or b.file.endswith("/tests.rs")
+
+
+# ---- renamed types and fields ----------------------------------------------------------------------------------------
+# Same idea for the library's own types: adt_fingerprints.json records, per struct / enum, the variants with their field
+# names and types. A recorded type that is missing while an unknown type of the same crate has the same shape (same kind,
+# same field types variant by variant) is that type under a new name; a recorded type whose fields have the same types in
+# the same order but other names had its fields renamed. Both are mapped back to the recorded names before the rules run.
+ADT_FP_FILE = os.path.join(os.path.dirname(os.path.abspath(__file__)), "adt_fingerprints.json")
+_ADT_TABLE = None
+
+
+def _load_adt_table():
+    global _ADT_TABLE
+    if _ADT_TABLE is None:
+        try:
+            with open(ADT_FP_FILE) as fh:
+                _ADT_TABLE = json.load(fh)
+        except OSError:
+            _ADT_TABLE = {}
+    return _ADT_TABLE
+
+
+def adt_shape(a):
+    name = a["path"].rsplit("::", 1)[-1]
+    rx = re.compile(r"\b%s\b" % re.escape(name))
+    return [a["kind"]] + [[rx.sub("@", f["ty"]) for f in v["fields"]] for v in a["variants"]]
+
+
+def _adt_candidate(a, crate):
+    return crate.startswith("jsonrpsee") and "{" not in a["path"] and "::_::" not in a["path"] and not _TEST_RX.search(a["path"])
+
+
+def renamed_adts(raws, config=None):
+    table = _load_adt_table()
+    if not table:
+        return {}
+    present = {}
+    crates = {d["crate"] for d in raws}
+    for d in raws:
+        for a in d["adts"]:
+            if _adt_candidate(a, d["crate"]):
+                present.setdefault(a["path"], (d["crate"], a))
+    missing = [p for p, e in table.items() if p not in present and e["crate"] in crates and (config is None or config in e["cfgs"])]
+    new = [p for p in present if p not in table]
+    if not missing or not new:
+        return {}
+
+    def names(vs):
+        return {f if isinstance(f, str) else f["n"] for v in vs for f in ([v["n"]] + [x["n"] for x in v["fields"]])}
+
+    pairs = []
+    for m in missing:
+        e = table[m]
+        for n in new:
+            crate, a = present[n]
+            if crate != e["crate"] or adt_shape(a) != e["shape"]:
+                continue
+            if not any(v["fields"] for v in a["variants"]) and len(a["variants"]) < 2:
+                continue  # unit structs carry no shape to recognise them by
+            na, nb = set(e["names"]), names(a["variants"])
+            sim = len(na & nb) / float(len(na | nb) or 1)
+            same_prefix = m.rsplit("::", 1)[0] == n.rsplit("::", 1)[0]
+            pairs.append((sim + (0.05 if same_prefix else 0.0), m, n))
+    pairs.sort(reverse=True)
+    out = {}
+    used = set()
+    for sc, m, n in pairs:
+        if m in used or n in out:
+            continue
+        rivals = [s for s, m2, n2 in pairs if (m2 == m) != (n2 == n) and m2 not in used and n2 not in out]
+        if rivals and max(rivals) > sc - 0.15:
+            continue
+        out[n] = m
+        used.add(m)
+    return out
+
+
+def renamed_fields(raws):
+    """{(adt path, variant index): {field index: recorded name}} for types whose fields kept their types and order"""
+    table = _load_adt_table()
+    out = {}
+    for d in raws:
+        for a in d["adts"]:
+            e = table.get(a["path"])
+            if e is None or e["crate"] != d["crate"] or adt_shape(a) != e["shape"]:
+                continue
+            for vi, v in enumerate(a["variants"]):
+                want = e["fields"][vi]
+                got = [f["n"] for f in v["fields"]]
+                if got != want and len(got) == len(want) and not got[0:1] == ["0"]:
+                    out[(a["path"], vi)] = {i: w for i, (g, w) in enumerate(zip(got, want)) if g != w}
+                    out[(a["path"], v["n"])] = out[(a["path"], vi)]
+    return out
+
+
+def _respell_fields(d, fal):
+    for a in d["adts"]:
+        for vi, v in enumerate(a["variants"]):
+            m = fal.get((a["path"], vi))
+            if m:
+                for i, w in m.items():
+                    v["fields"][i]["n"] = w
+    def walk(x):
+        if isinstance(x, dict):
+            if "f" in x and "o" in x and "n" in x:
+                o = x["o"]
+                m = fal.get((o, 0))
+                if m is None:
+                    head, _, var = o.rpartition("::")
+                    m = fal.get((head, var))
+                if m and x["f"] in m:
+                    x["n"] = m[x["f"]]
+            elif x.get("ak") == "adt" and "fields" in x and "adt" in x:
+                m = fal.get((x["adt"], x.get("vi", 0)))
+                if m and len(x["fields"]) > max(m):
+                    for i, w in m.items():
+                        x["fields"][i] = w
+            for v in x.values():
+                if isinstance(v, (dict, list)):
+                    walk(v)
+        elif isinstance(x, list):
+            for v in x:
+                if isinstance(v, (dict, list)):
+                    walk(v)
+
+    for b in d["bodies"]:
+        walk(b)
